@@ -142,6 +142,22 @@ fn stall_cause(sim: &Sim, final_chain: usize) -> String {
     cause
 }
 
+/// The block a finding of the reference index is about (parsed from its text): the block that
+/// created the missing cell / holds the missing entry / spent the served cell.
+fn subject_block(class: &str, detail: &str) -> Option<u64> {
+    let after = |mark: &str| -> Option<u64> {
+        let rest = &detail[detail.find(mark)? + mark.len()..];
+        let digits: String = rest.chars().take_while(|c| c.is_ascii_digit()).collect();
+        digits.parse().ok()
+    };
+    match class {
+        "missing-live-cell" => after("created in block "),
+        "missing-output-entry" | "missing-input-entry" => after(") misses "),
+        "spent-cell-served" => after(" which block "),
+        _ => None,
+    }
+}
+
 /// First-run initialisation: `Client::open` on an empty directory, crash at every write of
 /// init_genesis_block, then a normal start on the same directory.
 fn first_run_init(env: &Env, report: &mut Report) -> (u64, u64) {
@@ -262,6 +278,19 @@ pub(crate) fn run(opts: &Opts, report: &mut Report) {
                 bad.extend(judged);
             }
             let cause = sim.as_ref().map(|s| stall_cause(s, h.final_chain)).unwrap_or_default();
+            // A sync that waits for a stale record for good may also come to rest (nothing changes
+            // any more) instead of re-requesting for ever: then the run is reported as not caught
+            // up, and everything about blocks above the filtered height (not examined again after
+            // the rollback) is a consequence of that wait, not another defect.
+            if !cause.is_empty() && bad.iter().any(|(c, _)| c == "not-caught-up") {
+                let filtered = sim.as_ref().map(|s| s.c().storage.get_min_filtered_block_number()).unwrap_or(u64::MAX);
+                for (class, detail) in bad.iter_mut() {
+                    let consequence = class == "not-caught-up" || subject_block(class, detail).map(|n| n > filtered).unwrap_or(false);
+                    if consequence {
+                        *class = "stall".to_owned();
+                    }
+                }
+            }
             for (class, items) in oracle::group(bad) {
                 let hist_kind = h.name.split('/').next().unwrap_or("").to_owned();
                 // a run that never gets quiescent is named after what keeps it busy
